@@ -103,6 +103,32 @@ def check(ctx, rep, nsets, only=None):
                 rep.violation("bound_set_untouched", SITE + ".__init__", f"constructing the transformer changed the caller's bound arrays: lb={lb} ub={ub} plb={plb} pub={pub} -> "
                               f"{[a.ravel().tolist() for a in arrs]}", case)
                 continue
+            if all(math.isfinite(l) and math.isfinite(u) for l, u in zip(lb, ub)):
+                # plausible bounds OMITTED (documented: "equal to the hard bounds"): the same map as with plausible bounds given equal to the hard
+                # bounds, built from float64 arrays that are the caller's and stay untouched
+                try:
+                    v_exp = VariableTransformer(D, np.array([lb]), np.array([ub]), np.array([lb]), np.array([ub]), flag)
+                except ValueError:
+                    v_exp = None
+                if v_exp is not None:
+                    stats["omitted_plausible_sets"] = stats.get("omitted_plausible_sets", 0) + 1
+                    la, ua = np.array([lb], dtype=float), np.array([ub], dtype=float)
+                    try:
+                        v_def = VariableTransformer(D, la, ua, None, None, flag)
+                    except ValueError as ex:
+                        rep.violation("omitted_plausible_equal_hard", SITE + ".__init__", f"hard bounds lb={lb} ub={ub} are accepted with plausible bounds equal to them but rejected with "
+                                      f"plausible bounds omitted: {str(ex)[:80]}", case)
+                        continue
+                    Xs = np.array([[l + (u - l) * fr for l, u in zip(lb, ub)] for fr in (0.0, 0.13, 0.5, 0.77, 1.0)])
+                    with np.errstate(all="ignore"):
+                        same = all(np.array_equal(np.asarray(getattr(v_def, a_)), np.asarray(getattr(v_exp, a_)), equal_nan=True) for a_ in ("lb", "ub", "plb", "pub", "apply_log_t")) \
+                            and np.array_equal(v_def(Xs.copy()), v_exp(Xs.copy()), equal_nan=True)
+                    if not same or not (np.array_equal(la, np.array([lb])) and np.array_equal(ua, np.array([ub]))):
+                        with np.errstate(all="ignore"):
+                            rep.violation("omitted_plausible_equal_hard", SITE + ".__init__", f"with plausible bounds omitted the transformer differs from the one built with plausible = hard bounds "
+                                          f"(lb={lb} ub={ub}): internal plb/pub {np.ravel(v_def.plb).tolist()}/{np.ravel(v_def.pub).tolist()} vs {np.ravel(v_exp.plb).tolist()}/{np.ravel(v_exp.pub).tolist()}, "
+                                          f"image of the hard bounds {v_def(Xs[[0, -1]].copy()).tolist()} vs {v_exp(Xs[[0, -1]].copy()).tolist()}; caller's arrays now {la.tolist()} {ua.tolist()}", case)
+                        continue
             if only is not None or si % 3 == 0:
                 # the helper through which BADS maps given points (x0) into internal coordinates: the image of a point must not depend on
                 # the dtype it is spelled in (integer-typed points) nor on how many points are mapped at once
